@@ -267,6 +267,41 @@ fn exhausted_payload_only(a: &str, b: &str) -> bool {
     a != b && strip(a) == strip(b)
 }
 
+/// the inputs of a program include the files it imports: a parse after the file changed sees the new text (same path,
+/// same length, rewritten at once), whatever an earlier parse in this process saw
+fn import_after_rewrite(rep: &mut Report) {
+    let dir = format!("/verif/target/scratch/c05-{}", std::process::id());
+    let _ = std::fs::create_dir_all(&dir);
+    let path = format!("{dir}/lib.ssl");
+    let interp = Interpreter::with_stdlib();
+    for i in 0..40u32 {
+        let (text, want) = match i % 4 {
+            0 => (format!("answer := {};", i % 10), (i % 10).to_string()),
+            1 => (format!("answer := {}", i % 10 + 10), (i % 10 + 10).to_string()),
+            2 => ("answer := \"s\";".to_string(), "\"s\"".to_string()),
+            _ => ("answer := [1];\n".to_string(), "[1]".to_string()),
+        };
+        if std::fs::write(&path, &text).is_err() {
+            rep.inconclusive("scratch-file-not-writable");
+            break;
+        }
+        rep.evaluations += 1;
+        rep.count("import-after-rewrite");
+        let src = format!("m := import \"{path}\"; m.answer");
+        let got = match real::guarded(|| Code::parse(&interp, &src).map(|c| c.exec())) {
+            Ok(Ok(Ok(v))) => canon(&v),
+            Ok(Ok(Err(e))) => format!("error:{e:?}"),
+            Ok(Err(e)) => format!("rejected:{}", real::error_variant(&e)),
+            Err(p) => format!("panic:{}", p.site()),
+        };
+        if got != want {
+            rep.violation("c05:import:stale-or-wrong-file-content", &format!("after the imported file was rewritten to `{}` the program `m := import ..; m.answer` gave {got}, expected {want}", text.trim()), "c05-import", &text);
+            break;
+        }
+    }
+    let _ = std::fs::remove_dir_all(&dir);
+}
+
 pub fn run(cfg: &Cfg, rep: &mut Report) {
     let deadline = Deadline::new(cfg.budget_s);
     if let Some(range) = cfg.extra.get("child") {
@@ -332,6 +367,9 @@ pub fn run(cfg: &Cfg, rep: &mut Report) {
         check_types(&ta, &tb, k.min(8), rep);
         cfg.checkpoint(rep);
     }
+    if cfg.shard == 0 {
+        import_after_rewrite(rep);
+    }
     // ---- programs: K repetitions in this process, then P further processes
     let n_prog = cfg.per_shard(8_000, 400_000);
     let batch = 200u64;
@@ -380,6 +418,10 @@ pub fn run(cfg: &Cfg, rep: &mut Report) {
 }
 
 pub fn replay(kind: &str, payload: &str, rep: &mut Report) {
+    if kind == "c05-import" {
+        import_after_rewrite(rep);
+        return;
+    }
     if kind == "c05-types" {
         let mut it = payload.trim_end().split('\t');
         let (Some(a), Some(b)) = (it.next(), it.next()) else { return };
